@@ -97,7 +97,7 @@ theorem runsAux_spec (segs : List Seg) (hok : ∀ s ∈ segs, s.OK) (off : Nat) 
       | none =>
         simp only [runsAux, hf, ↓reduceIte]
         obtain ⟨i1, i2, i3, _, i5⟩ := ih hss (off + s.size) (some { start := off, len := s.size })
-          (by intro r hr; cases hr; exact ⟨by omega, rfl⟩)
+          (by intro r hr; cases hr; exact ⟨by show 0 < s.size; omega, rfl⟩)
         refine ⟨i1, i2, ?_, ?_, ?_⟩
         · intro x hx
           have := i3 x hx
@@ -115,7 +115,7 @@ theorem runsAux_spec (segs : List Seg) (hok : ∀ s ∈ segs, s.OK) (off : Nat) 
         simp only [runsAux, hf, ↓reduceIte]
         obtain ⟨i1, i2, i3, _, i5⟩ := ih hss (off + s.size) (some { start := r.start, len := r.len + s.size })
           (by intro r' hr'; cases hr'; simp only [Sp.stop] at hr2 ⊢; exact ⟨by omega, by omega⟩)
-        refine ⟨i1, i2, ?_, by intro h; cases h, ?_⟩
+        refine ⟨i1, i2, ?_, (fun h => by cases h), ?_⟩
         · intro x hx
           have := i3 x hx
           simp only [curStart] at this ⊢
@@ -153,7 +153,7 @@ theorem runsAux_spec (segs : List Seg) (hok : ∀ s ∈ segs, s.OK) (off : Nat) 
         obtain ⟨hr1, hr2⟩ := hcur r rfl
         simp only [runsAux, hf', Bool.false_eq_true, ↓reduceIte]
         obtain ⟨i1, i2, i3, i4, i5⟩ := ih hss (off + s.size) none (by intro r' hr'; cases hr')
-        refine ⟨?_, ?_, ?_, by intro h; cases h, ?_⟩
+        refine ⟨?_, ?_, ?_, (fun h => by cases h), ?_⟩
         · intro x hx
           rcases List.mem_cons.mp hx with rfl | hx
           · exact hr1
